@@ -96,7 +96,7 @@ func cmdCheck(args []string) int {
 	}
 	t0 := time.Now()
 	vd := verifDir()
-	cfg := &SolverCfg{QuickTimeout: 5 * time.Second, FullTimeout: 30 * time.Second, CacheDir: filepath.Join(vd, ".cache"), NoCache: os.Getenv("VERIF_NOCACHE") == "1"}
+	cfg := &SolverCfg{QuickTimeout: 8 * time.Second, FullTimeout: 60 * time.Second, CacheDir: filepath.Join(vd, ".cache"), NoCache: os.Getenv("VERIF_NOCACHE") == "1"}
 	if *tier == "thorough" {
 		cfg.Agree = true
 		cfg.FullTimeout = 120 * time.Second
